@@ -119,6 +119,24 @@ for ir in irs:
     for style in ("rest", "google", "numpydoc"):
         if attempt(cdd.docstring.emit.docstring, ir, docstring_format=style) is not None:
             done["emitted"] += 1
+# a route whose docstring carries a yml block: the block is data for the routes / OpenAPI parser
+import cdd.routes.parse.bottle
+sent = os.path.join(root, "sentinels", "S_yaml")
+route_src = (
+    "@rest_api.get('/api/config')\n"
+    "def read():\n"
+    '    """Read `Config`\n\n'
+    "    ```yml\n"
+    "    responses:\n"
+    "      '200':\n"
+    "        description: !!python/object/apply:os.mkdir [\"%s\"]\n"
+    "    ```\n\n"
+    "    :return: the config\n"
+    '    """\n'
+    "    return {}\n" % sent
+)
+if attempt(cdd.routes.parse.bottle.bottle, ast.parse(route_src).body[0]) is not None:
+    done["parsed"] += 1
 print("@@" + json.dumps(done))
 '''
 
